@@ -11,7 +11,7 @@ from props_pipe import H, O, C, expect_exact
 
 DEFAULTS = {'delimiter-start': '<!-- <', 'delimiter-end': '> -->', 'time-limited-tag-name': 'time-limited', 'time-limited-time-offset': '+00:00',
             'removal-marker-tag-name': 'removal-marker'}
-TIMES = {'2024-01-01T00:00:00Z': 1704067200, '2005-06-01T09:00:00+09:00': 1117584000, '1999-12-31T23:59:59-08:00': 946713599}
+TIMES = {'2001-01-01T03:00:00Z': 978318000, '2000-12-31T20:00:00Z': 978292800, '2010-01-01T05:30:00+09:00': 1262291400, '2024-01-01T00:00:00Z': 1704067200, '2005-06-01T09:00:00+09:00': 1117584000, '1999-12-31T23:59:59-08:00': 946713599}
 PRINTABLE = tuple(range(0x21, 0x7f))
 
 
@@ -159,7 +159,7 @@ def c20_jobs(tier, seed):
     J('custom delimiters and tag names', opts=dict(base, **{'delimiter-start': ['/* <'], 'delimiter-end': ['> */'], 'time-limited-tag-name': ['tl'],
                                                              'removal-marker-tag-name': ['rm'], 'removal-marker-target-name': ['y']}), tz_list=tzs)
     for t in TIMES:
-        for off in ('+09:00', '-0800'):
+        for off in ('+00:00', '+09:00', '-0800'):
             J(f'current={t} offset={off}', opts={'time-limited-current': [t], 'time-limited-time-offset': [off], 'filename': ['in.txt']}, tz_list=tzs)
     J('no explicit current time (clock stub)', opts={'removal-marker-target-name': ['x'], 'filename': ['in.txt']})
     J('unparseable current time falls back to the clock', opts={'time-limited-current': [''], 'removal-marker-target-name': ['y']})
